@@ -312,16 +312,18 @@ def check_history(case, ctx):
                 ctx.check(name == want, "C11.detect",
                           lambda: f"{where}: detected {name}, expected {want}")
             # invariant over every live dataset
+            from emsarray.state import State
             for k, other in enumerate(live):
                 if other["bound"] is not None:
-                    now = other["ds"].ems
+                    # (looked up through the state object: reading .ems here would make xarray
+                    # cache the accessor value and hide a binding that is replaced later)
+                    now = State.get(other["ds"]).convention
                     ctx.check(now is other["bound"], "C11.binding_stable",
                               lambda: f"after {where}: dataset {k} now has {now!r} attached instead "
                               f"of {other['bound']!r}")
                     ctx.check(now.dataset is other["ds"], "C11.binding_stable",
                               lambda: f"after {where}: convention of dataset {k} points at another dataset")
                 else:
-                    from emsarray.state import State
                     ctx.check(not State.get(other["ds"]).is_bound(), "C11.copies_independent",
                               lambda: f"after {where}: dataset {k} became bound although nothing was "
                               f"attached to it (copy of {other['origin']})")
